@@ -347,4 +347,32 @@ def tracebackOpts (lineno extra : Nat) (wordWrap indentGuides : Bool)
     wordWrap := wordWrap, indentGuides := indentGuides,
     maxWidth := maxWidth, optNoWrap := optNoWrap, legacyWindows := legacyWindows, asciiOnly := asciiOnly, pad := pad }
 
+/-! ### `read_code` inside `_render_stack` (traceback.py:438-456): a cache that lives for ONE call -/
+
+abbrev FileId := Nat
+
+/-- `code = code_cache.get(filename); if code is None: code = open(filename).read(); code_cache[filename] = code`.
+`fs` is the file system at the moment of the call. -/
+def readCode (fs : FileId → List Char) (cache : List (FileId × List Char)) (f : FileId) :
+    List Char × List (FileId × List Char) :=
+  match (cache.find? (fun p => p.1 == f)).map (·.2) with
+  | some code => (code, cache)
+  | none => (fs f, (f, fs f) :: cache)
+
+/-- The code handed to `Syntax` for each frame of a stack, threading the cache. -/
+def stackCodesFrom (fs : FileId → List Char) : List (FileId × List Char) → List FileId → List (List Char) × List (FileId × List Char)
+  | cache, [] => ([], cache)
+  | cache, f :: rest =>
+    let r := readCode fs cache f
+    let rs := stackCodesFrom fs r.2 rest
+    (r.1 :: rs.1, rs.2)
+
+/-- A history of `_render_stack` calls, each with the file system of its moment.  `persist = false` is the
+code as it is (`code_cache = {}` at the top of every call); `persist = true` would be a cache that survives calls. -/
+def renderHistory (persist : Bool) : List (FileId × List Char) → List ((FileId → List Char) × List FileId) → List (List (List Char))
+  | _, [] => []
+  | cache, (fs, frames) :: rest =>
+    let r := stackCodesFrom fs (if persist then cache else []) frames
+    r.1 :: renderHistory persist r.2 rest
+
 end RichModel.Syntax
